@@ -99,6 +99,19 @@ def case_binary(T, ta, tb, opnames):
             Bd = expected(T, RB)
             _observe(T, "A+arr", lambda: A + Bd, ref_add(T, RA, RB))
             _observe(T, "arr+A", lambda: Bd + A, ref_add(T, RB, RA))
+        elif op == "arrays":
+            # the functional combinators applied to plain arrays (mixing operators with plain arrays): kron / kronsum of two arrays and of
+            # an array with an operator; densify of an array is the array; elementwise product of two scalar operators
+            Ad, Bd = expected(T, RA), expected(T, RB)
+            _observe(T, "kron(arr,arr)", lambda: cola.kron(Ad, Bd), ref_kron(T, RA, RB))
+            _observe(T, "kron(arr,B)", lambda: cola.kron(Ad, B), ref_kron(T, RA, RB))
+            _observe(T, "kron(A,arr)", lambda: cola.kron(A, Bd), ref_kron(T, RA, RB))
+            if RA.shape[0] == RA.shape[1] and RB.shape[0] == RB.shape[1]:
+                n, m = RA.shape[0], RB.shape[0]
+                R = ref_add(T, ref_kron(T, RA, ref_eye(T, m, RB.dt)), ref_kron(T, ref_eye(T, n, RA.dt), RB))
+                _observe(T, "kronsum(arr,arr)", lambda: cola.kronsum(Ad, Bd), R)
+                _observe(T, "kronsum(A,arr)", lambda: cola.kronsum(A, Bd), R)
+            T.eq("densify(arr)", cola.densify(Ad), Ad)
         elif op == "matmul_chain":
             pass
         elif op == "nested":
@@ -179,6 +192,9 @@ FORMS = [["pyint", F8], ["pyneg", F8], ["pyzero", F8], ["py", F8], ["py", C16], 
 
 def cases(tier, seed):
     out = []
+    for a, b in ((["dense", 2, 2, F8], ["dense", 2, 2, F8]), (["dense", 2, 3, F8], ["dense", 1, 2, C8]), (["diag", 2, F8], ["dense", 3, 3, F8]),
+                 (["dense", 2, 2, C8], ["tridiag", 2, F8]), (["scalar", 2, F8], ["dense", 2, 2, F8])):
+        out.append((f"arr:{tree_name(a)}|{tree_name(b)}", case_binary, dict(ta=a, tb=b, opnames=["arrays"])))
     for a in SQ:
         for b in SQ:
             out.append((f"bin:{tree_name(a)}|{tree_name(b)}", case_binary,
